@@ -51,6 +51,41 @@ fn run(case: &HashMap<String, String>) -> String {
             ),
             Err(_) => "{\"outcome\":\"err\"}".to_string(),
         },
+        "name_new" => {
+            let text = match std::str::from_utf8(&bytes) {
+                Ok(t) => t,
+                Err(_) => return "{\"outcome\":\"not-utf8\"}".to_string(),
+            };
+            match Name::new(text) {
+                Ok(n) => {
+                    let shown = n.to_string();
+                    let again = match Name::new(&shown) {
+                        Ok(m) => if m == n { "ok" } else { "differs" },
+                        Err(_) => "err",
+                    };
+                    format!("{{\"outcome\":\"ok\",\"shown\":\"{}\",\"again\":\"{}\",\"labels\":{}}}",
+                            hex(shown.as_bytes()), again, labels_json(&n))
+                }
+                Err(_) => "{\"outcome\":\"err\"}".to_string(),
+            }
+        }
+        "suffix" => {
+            let mk = |key: &str| -> Name<'static> {
+                let ls: Vec<crate::dns::name::Label<'static>> = case[key]
+                    .split(',')
+                    .filter(|x| !x.is_empty())
+                    .map(|h| crate::dns::name::Label::new_unchecked(unhex(h)))
+                    .collect();
+                Name::new_with_labels(&ls)
+            };
+            let (a, b) = (mk("a"), mk("b"));
+            let sub = a.is_subdomain_of(&b);
+            let wo = match a.without(&b) {
+                Some(n) => labels_json(&n),
+                None => "null".to_string(),
+            };
+            format!("{{\"outcome\":\"ok\",\"sub\":{},\"without\":{},\"local\":{}}}", sub, wo, a.is_link_local())
+        }
         "rdata_parse" => {
             let mut pos: usize = case["pos"].parse().unwrap();
             let start = pos;
